@@ -308,13 +308,17 @@ namespace
         }
         int on_error(Shape& l, Shape& r) { log->push_back(Call{0, {&l, &r}, nullptr}); return 0; }
     };
-    template <class SYM>
+    // RMODE 0: the right-hand list defaults to the left-hand one; 1: an explicitly different right-hand list over the same base
+    template <class SYM, int RMODE = 0>
     struct StaticWorld
     {
         // C is deliberately not in the list: dispatching on it must end in on_error
         using List = mpl::vector<D, A, B>;      // most derived first, as the dynamic_cast chain requires
-        using Disp = xtl::static_dispatcher<Exec, Shape, List, int, SYM>;
+        using RList = mpl::vector<D, C, A>;     // used when RMODE == 1: B is missing on the right, C only dispatchable there
+        using Disp = std::conditional_t<RMODE == 0, xtl::static_dispatcher<Exec, Shape, List, int, SYM>,
+                                        xtl::static_dispatcher<Exec, Shape, List, int, SYM, Shape, RList>>;
         static constexpr bool symmetric = std::is_same<SYM, xtl::symmetric_dispatch>::value;
+        static_assert(!(symmetric && RMODE != 0), "symmetric dispatch is only meaningful with one list");
         Run& run;
         const Plan& plan;
         Pool pool;
@@ -323,6 +327,7 @@ namespace
         StaticWorld(Run& r, const Plan& p) : run(r), plan(p) { tail = "dispatch"; }
         [[noreturn]] void viol(const char* oracle, const std::string& msg) { fail("model", std::string("C17/") + oracle + "/" + plan.cfg + "/" + tail, msg); }
         static int list_index(int t) { return t == 3 ? 0 : (t == 0 ? 1 : (t == 1 ? 2 : -1)); }
+        static int rlist_index(int t) { if (RMODE == 0) return list_index(t); return t == 3 ? 0 : (t == 2 ? 1 : (t == 0 ? 2 : -1)); }
         void step(const Step& st)
         {
             StepScope sc(run, st, plan.cfg.c_str());
@@ -334,7 +339,7 @@ namespace
             log.clear();
             int ret = Disp::dispatch(*l, *r, ex);
             if (log.size() != 1) viol("wrong-handler", std::to_string(log.size()) + " executor entries ran for one dispatch");
-            bool known = list_index(tl) >= 0 && list_index(tr) >= 0;
+            bool known = list_index(tl) >= 0 && rlist_index(tr) >= 0;
             const Call& c = log[0];
             if (!known)
             {
@@ -358,6 +363,72 @@ namespace
                     Disp::dispatch(*r, *l, ex);
                     if (log.size() != 1 || log[0].handler != want_handler) viol("symmetry", "dispatch(a,b) and dispatch(b,a) reach different handlers");
                 }
+                ++run.changing;
+            }
+            run.dig(static_cast<uint64_t>(c.handler));
+        }
+        void run_all() { for (const Step& st : plan.steps) step(st); }
+    };
+
+    // ---- static_dispatcher over two different hierarchies (base_rhs and rhs_type_list given explicitly) -----------------------
+    struct Color { virtual ~Color() = default; };
+    struct Red : Color {};
+    struct Green : Color {};
+    struct Crimson : Red {};
+    inline int color_id(const Color& c) { return typeid(c) == typeid(Red) ? 0 : (typeid(c) == typeid(Green) ? 1 : (typeid(c) == typeid(Crimson) ? 2 : -1)); }
+    struct MixedExec
+    {
+        std::vector<Call>* log;
+        template <class L, class R> int run(L& l, R& r)
+        {
+            log->push_back(Call{100 + type_id(l) * 10 + color_id(r), {static_cast<Shape*>(&l), static_cast<Color*>(&r)}, nullptr});
+            if (typeid(L) != typeid(l) || typeid(R) != typeid(r)) log->back().handler = -1;
+            return log->back().handler;
+        }
+        int on_error(Shape& l, Color& r) { log->push_back(Call{0, {&l, &r}, nullptr}); return 0; }
+    };
+    struct StaticMixedWorld
+    {
+        using List = mpl::vector<D, A, B>;            // C missing on the left
+        using RList = mpl::vector<Crimson, Red>;      // Green missing on the right
+        using Disp = xtl::static_dispatcher<MixedExec, Shape, List, int, xtl::antisymmetric_dispatch, Color, RList>;
+        Run& run;
+        const Plan& plan;
+        Pool pool;
+        Red red[2]; Green green[2]; Crimson crimson[2];
+        std::vector<Call> log;
+        std::string tail;
+        StaticMixedWorld(Run& r, const Plan& p) : run(r), plan(p) { tail = "dispatch"; }
+        [[noreturn]] void viol(const char* oracle, const std::string& msg) { fail("model", std::string("C17/") + oracle + "/" + plan.cfg + "/" + tail, msg); }
+        void step(const Step& st)
+        {
+            StepScope sc(run, st, plan.cfg.c_str());
+            int tl = static_cast<int>(st.a % NTYPES), tr = static_cast<int>((st.a / NTYPES) % 3);
+            static const char* const cn[3] = {"Red", "Green", "Crimson"};
+            run.abstract(mix(strhash(plan.cfg.c_str()), static_cast<uint64_t>(tl), static_cast<uint64_t>(tr)));
+            Shape* l = pool.obj(tl, static_cast<int>(st.b & 1));
+            int w = static_cast<int>((st.b >> 1) & 1);
+            Color* r = tr == 0 ? static_cast<Color*>(&red[w]) : (tr == 1 ? static_cast<Color*>(&green[w]) : static_cast<Color*>(&crimson[w]));
+            MixedExec ex{&log};
+            log.clear();
+            int ret = Disp::dispatch(*l, *r, ex);
+            if (log.size() != 1) viol("wrong-handler", std::to_string(log.size()) + " executor entries ran for one dispatch");
+            bool known = tl != 2 && tr != 1;
+            const Call& c = log[0];
+            std::string pair = std::string("(") + type_names[tl] + "," + cn[tr] + ")";
+            if (!known)
+            {
+                if (c.handler != 0) viol("wrong-handler", pair + " is not dispatchable but run() was called");
+                SIM_PROBE("static_dispatch_on_error");
+            }
+            else
+            {
+                if (c.handler == 0) viol("spurious-error", "on_error was called for " + pair);
+                if (c.handler == -1) viol("wrong-handler", "run() was called with static types that are not the dynamic types of the arguments");
+                if (c.args[0] != static_cast<const void*>(l) || c.args[1] != static_cast<const void*>(r)) viol("arguments", "arguments were not the caller's objects in order for " + pair);
+                int want = 100 + tl * 10 + tr;
+                if (c.handler != want || ret != want) viol("wrong-handler", "run() overload for another pair of types was selected for " + pair);
+                SIM_PROBE("static_dispatch_two_hierarchies");
                 ++run.changing;
             }
             run.dig(static_cast<uint64_t>(c.handler));
@@ -553,6 +624,8 @@ namespace
     DS_CFG(fast_3arg_static_cast, 3, FunctorWorld<3, xtl::static_caster, xtl::basic_fast_dispatcher, false>);
     DS_CFG(static_antisymmetric, 2, StaticWorld<xtl::antisymmetric_dispatch>);
     DS_CFG(static_symmetric, 2, StaticWorld<xtl::symmetric_dispatch>);
+    DS_CFG(static_antisymmetric_other_rhs_list, 1, StaticWorld<xtl::antisymmetric_dispatch, 1>);
+    DS_CFG(static_two_hierarchies, 1, StaticMixedWorld);
     DS_CFG(acyclic_visitor_default_catch_all, 1, AcyclicWorld<vdefault::Types>);
     DS_CFG(acyclic_visitor_throwing_catch_all, 1, AcyclicWorld<vthrowing::Types>);
     DS_CFG(const_acyclic_visitor_default_catch_all, 1, ConstAcyclicWorld<vdefault::Types>);
